@@ -61,6 +61,11 @@ def judge(R, it, res, cop_ans, first_ans, rand_ans):
     # --- Copeland: definition, Condorcet winner
     exact = V.exact_scores("copeland", 0, P, m)
     sc = [Fraction(x) for x in res["copeland"]]
+    if sum(sc) != 0:
+        # C12_copeland_zero_sum: holds for every profile; a one-sided comparison or a skipped pair breaks it on even splits
+        R.violation("property_violation", "Copeland scores sum to zero (every pair is counted once for and once against: C12_copeland_zero_sum)",
+                    ENTRY + " Copeland.score", {"P": P}, impl_output=res["copeland"], oracle={"sum": fr(sum(sc)), "textbook": [fr(x) for x in exact]}, config=cfg)
+        return
     if sc != exact:
         R.violation("property_violation", "Copeland score = #beaten - #beating in strict pairwise majorities", ENTRY + " Copeland.score",
                     {"P": P}, impl_output=res["copeland"], oracle=[fr(x) for x in exact], config=cfg)
